@@ -1,6 +1,7 @@
 """Helpers shared by the C09 / C10 / C17 (fingerprint part) checks: richer generators than fpgen's, observation of the
 other representations of a fingerprint (dense / CSR vector, bit string, RDKit vector, props) and their Gallina
 literals for Model/FprintIO.v."""
+import os
 from fractions import Fraction
 import numpy as np
 import core
@@ -274,3 +275,75 @@ def signed_spec(rng, kind=None, bits=None):
 def build_signed(rng, kind=None, bits=None):
     sa, sb = signed_spec(rng, kind, bits)
     return build(sa) - build(sb)
+
+
+# --------------------------------------------------------------------------- replay
+def _norm(x):
+    import json
+    return json.loads(json.dumps(x, sort_keys=True, default=str))
+
+
+def replay_regenerate(pid, path, build_state, imports, what, extra_parts=()):
+    """Re-run a recorded failing case on both sides.  The case is regenerated deterministically from the seed and tier stored
+    in the replay file (the generators only draw from ctx.rng), the implementation in VERIF_REPO is driven again, and the
+    model is evaluated again by coqc.  Prints a VIOLATION line and returns 1 if the case still fails, returns 0 if it passes
+    now, 2 if the recorded case cannot be regenerated (generators changed)."""
+    import json, re, shutil
+    d = json.load(open(path))
+    ctx = core.Ctx(pid, d.get('tier', 'quick'), d.get('seed', 0))
+    try:
+        print('replay %s: property %s, seed %s, tier %s, kind %s' % (path, pid, d.get('seed'), d.get('tier'), d.get('kind')))
+        print('recorded: ' + d.get('what', '')[:400])
+        if d.get('kind') == 'proof-obligation':
+            ok, res = core.proof_step(ctx)
+            if ok:
+                print('replay: all %d obligations of Properties/%s.v are discharged now' % (res['obligations'], pid))
+                return 0
+            print('VIOLATION property=%s replay=%s no-failing-input-found' % (pid, path))
+            print('  proof obligation still does not check: %s' % ', '.join(res.get('broken', ['?'])))
+            return 1
+        core.coq_make(['theories/Properties/%s.vo' % pid])
+        st = build_state(ctx)
+        rec = _norm(d.get('case', {}))
+        m = re.search(r'(?:on|for) case (\S+)\s*$', d.get('what', '').strip())
+        if d.get('kind') == 'correspondence' and m and m.group(1) in dict(st.cases):
+            key = m.group(1)
+            now = _norm(st.payloads[key])
+            strip = lambda pl: {k: v for k, v in pl.items() if k not in ('model_output', 'coq_log_tail', 'impl', 'impl_ok')}
+            if strip(now) != strip(rec):
+                print('replay: the generators no longer produce the recorded input for case %s; recorded input: %s' % (key, json.dumps(strip(rec))[:600]))
+                return 2
+            if now.get('impl') != rec.get('impl'):
+                print('replay: the implementation now answers differently on the recorded input:\n  recorded %s\n  now      %s' % (json.dumps(rec.get('impl'))[:400], json.dumps(now.get('impl'))[:400]))
+            expr = dict(st.cases)[key]
+            res, logs = core.coq_eval_bools([(key, expr)], imports, os.path.join(ctx.workdir, 'replay'))
+            print('implementation (VERIF_REPO=%s): %s' % (core.REPO, json.dumps(now.get('impl'))[:600]))
+            if res.get(key) is True:
+                print('replay: model and implementation agree on case %s now' % key)
+                return 0
+            if st.mexpr.get(key):
+                print('model: ' + core.coq_eval_raw(st.mexpr[key], imports, os.path.join(ctx.workdir, 'raw'))[-800:])
+            print('VIOLATION property=%s replay=%s' % (pid, path))
+            print('  %s: model and implementation still disagree on case %s' % (what, key))
+            return 1
+        # a failure of the property itself on the implementation (or of another part): look for it among the regenerated failures
+        for part in extra_parts:
+            part(ctx)
+        same = [v for v in ctx.violations + [{'what': w, 'payload': {}} for _, w in ctx.known_hits]
+                if v['what'] == d.get('what') and (_norm(v['payload']) == rec or not v['payload'])]
+        if not same:
+            same = [v for v in ctx.violations if v['what'] == d.get('what') and _norm(v['payload']).get('a') == rec.get('a') and rec.get('a') is not None]
+        if same:
+            print('VIOLATION property=%s replay=%s' % (pid, path))
+            print('  still fails: ' + same[0]['what'][:300])
+            print('  ' + json.dumps(_norm(same[0]['payload']))[:1200])
+            return 1
+        if any(_norm(v['payload']).get('a') == rec.get('a') for v in ctx.violations if rec.get('a') is not None):
+            v = [v for v in ctx.violations if _norm(v['payload']).get('a') == rec.get('a')][0]
+            print('VIOLATION property=%s replay=%s' % (pid, path))
+            print('  the recorded input still fails, differently: ' + v['what'][:300])
+            return 1
+        print('replay: the recorded failure does not occur any more (%d cases regenerated, %d failures of other cases)' % (len(st.cases), len(ctx.violations)))
+        return 0
+    finally:
+        shutil.rmtree(ctx.workdir, ignore_errors=True)
